@@ -31,6 +31,7 @@ for _pid, _t in {
   "C18": "Call chains of depth <= 4 over functions, methods, initialisers, static methods and lambdas with a raise / runtime error / native error / exit(n) at each level, caught at each level (incl. non-matching handlers on the way, wrapping with inner errors) or not at all, printed in two line layouts: TLC computes on Lang.tla the printed lines, e.message / e.inner / e.backTrace contents, the traceback frames (innermost first) and the exit status; the VM's stdout, stderr traceback and status must match.",
   "C19": "Interactive sessions: the top-level statements of generated modules (core, class, closure and exception families) are entered one per prompt line, with lines that fail to compile and lines that raise inserted; TLC runs the same entries on Lang.tla's session semantics (an entry that raises is reported and the session continues with everything defined so far); the prompt's stdout, the sequence of reported error classes and the normal end of the session must match.",
   "C17": "Acyclic module graphs of up to 4 files plus main (every import form, multiplicity, order relative to the module's own definitions; exports of let/fn/class; private state observable only through exported functions; requests for private names, missing files and a module that does not compile) are executed by TLC on Lang.tla's module semantics (body runs once, before the importer continues; an import binds exactly the exported values); the VM run over in-memory files must print the same lines and end the same way.",
+  "C10": "Histories of mutations (push, multi-push, insert, remove, pop, index assignment, clear, growth inside helper functions and methods, map set/remove, field writes) applied through randomly chosen aliases of 1-3 subjects (lists of 0-4 elements so that growth crosses the capacity, maps, instances) whose aliases live in variables, list / nested list / tuple / map elements, fields and closures, at module level or in a function's locals; interleaved with == / != between alias paths, map has/get/index/set keyed by the subject, list and tuple has/index, and prints through other aliases. TLC runs the same program on Lang.tla, where an object is a heap id that never changes.",
   "C11": "Histories of list, tuple, map and string operations with boundary, negative, fractional and wrongly typed arguments, each followed by a print of the receiver, and iterator pipelines (sources list/tuple/string/times/split, adaptors map/filter/take/skip/zip/chain with logging, raising and mutating callbacks, consumers list/into/reduce/each/all/any/first/last/for/next) are executed by TLC on Lang.tla's native models (finite sequence, finite map, code-point strings, pull-based lazy streams); each operation sits in a catch chain that names the error class, so the class of every raised error, the unchanged receiver and the order of callback effects must all match.",
 }.items():
     CHECKS[_pid] = dict(level="model_checking", design="5/" + _pid, text=_t, note=_lang_note,
